@@ -2,6 +2,7 @@ package tiny
 
 import (
 	"github.com/pinealctx/neptune/remap"
+	"math"
 )
 
 // WideLRUCache use LruCache group array as a wide lru cache
@@ -27,7 +28,10 @@ func newWideLRUCache(capacity int64, useXHash bool, opts ...remap.Option) LRU {
 	w.rehash = remap.NewReMap(opts...)
 	var numbs = w.rehash.Numbs()
 	w.ls = make([]*LRUCache, numbs)
-	var pSize = capacity/int64(numbs) + 1
+	var pSize = capacity / int64(numbs)
+	if pSize < math.MaxInt64 {
+		pSize++ // capacity/numbs + 1 would wrap negative for a single shard of capacity math.MaxInt64
+	}
 	for i := uint64(0); i < numbs; i++ {
 		w.ls[i] = NewLRUCache(pSize)
 	}
